@@ -115,6 +115,36 @@ def o_psk_offset(case):
     return None
 
 
+def o_qpsk(case):
+    """the QPSK subclass (what applications construct) is Gray labelled, also after the histories PSK allows"""
+    _, _, f = _impl()
+    q = f.QPSK()
+    r = min_distance_label_check(q.symbols)
+    if r:
+        return 'labels-not-gray', 'QPSK(): labels %d,%d at minimum distance' % r[:2]
+    return None
+
+
+def o_biterrors_long(case):
+    """R5 (size boundaries): long index arrays, lengths at and around multiples of 2^16, axis None and given"""
+    _, misc, _ = _impl()
+    rs = np.random.RandomState(case['seed'])
+    shape = tuple(case['shape'])
+    a = rs.randint(0, 1 << 20, size=shape).astype(np.int64)
+    b = rs.randint(0, 1 << 20, size=shape).astype(np.int64)
+    x = a ^ b
+    exp = int(sum(int(np.sum((x >> k) & 1)) for k in range(21)))
+    got = int(misc.count_bit_errors(a, b))
+    if got != exp:
+        return 'bit-errors-not-hamming:long', 'shape %s: got %d, Hamming distance %d' % (shape, got, exp)
+    if len(shape) == 2:
+        g0 = misc.count_bit_errors(a, b, 0)
+        e0 = sum(((x >> k) & 1).sum(axis=0) for k in range(21))
+        if not np.array_equal(np.asarray(g0), e0):
+            return 'bit-errors-not-hamming:long-axis', 'shape %s axis 0' % (shape,)
+    return None
+
+
 def o_qam(case):
     _, _, f = _impl()
     M = int(case['M'])
@@ -195,6 +225,8 @@ ORACLES = {
     'gray2binary': o_roundtrip,
     'binary2gray.consecutive': o_consecutive,
     'count_bit_errors': o_biterrors,
+    'QPSK.__init__': o_qpsk,
+    'count_bit_errors.long': o_biterrors_long,
     'PSK.__init__': o_psk_init,
     'PSK.setPhaseOffset': o_psk_offset,
     'QAM.__init__': o_qam,
@@ -345,6 +377,9 @@ def oracles(ctx, n_small, n_rand, psk_max, qam_max):
             b = [ctx.rng.below(1 << bb) for _ in range(n)]
             a[0], b[0] = (1 << ba) - 1, (1 << bb) - 1
             run_oracle(ctx, 'count_bit_errors.mixed', {'a': a, 'b': b, 'da': da, 'db': db}, key=('mixed', da, db))
+    run_oracle(ctx, 'QPSK.__init__', {}, key='qpsk')
+    for shape in ([65535], [65536], [65537], [131072], [196608], [512, 256], [3, 65536], [100000]):
+        run_oracle(ctx, 'count_bit_errors.long', {'shape': shape, 'seed': ctx.rng.below(1 << 30)}, key=('long', tuple(shape)))
     M = 2
     while M <= psk_max:
         for _ in range(2 if M <= 256 else 1):
